@@ -15,10 +15,8 @@ ID = 'C11'
 LEAN_MODULE = 'Proofs.C11'
 THEOREMS = ['Fsic.C11.' + n for n in [
     'copy_fresh', 'copy_observationally_equal', 'copy_same_class', 'disjoint_frame', 'disjoint_frame_ops',
-    'copy_independent', 'siblings_share_only_class_lists', 'siblings_disjoint_partial', 'siblings_disjoint_patched',
-    'siblings_share_endogenous', 'siblings_disjoint_false_at_witness', 'check_append_visible_at_witness',
-    'instance_class_share_only_class_lists', 'instance_class_disjoint_partial', 'instance_class_disjoint_patched',
-    'instance_class_disjoint_false_at_witness', 'traceT_classVars_not_local']]
+    'copy_independent', 'siblings_disjoint', 'instance_class_disjoint', 'sibling_history_invisible',
+    'class_invisible_to_instance_history', 'ops_local', 'trace_t_local']]
 RULE = ('programs over real fsic objects: a class (VectorContainer; parser-built / hand-written / default-inheriting '
         'BaseModel subclasses; BaseLinker subclasses with two nested submodels; with and without AliasMixin / '
         'TracerMixin, TRACE_VARIABLES None or a class-level list), two sibling instances over range / list spans, a '
@@ -39,16 +37,16 @@ ASSUMPTIONS = ['constructor arguments (span list, submodels dict) are owned by t
                'separate span objects (weaker reading)',
                'observational equality of a copy = equality of the full observable state up to object identity '
                '(bisimilarity); intra-object aliasing is not required to be preserved by copy() (weaker reading): '
-               'each __dict__ entry is deep-copied with its own memo, so e.g. Trace.names no longer aliases '
-               'model.names in the copy',
+               'each __dict__ entry is deep-copied with its own memo (two entries holding the same list get separate '
+               'copies)',
                'class-level NAMES is not mutated between the creation of an instance and its copy (copy() re-runs '
                '__init__ and would add the new variable to the copy only); theorem hypothesis WorldOK2.ctor',
                'heap is acyclic (copyRoot returns none otherwise)']
 
 META = {
-    "text": "Theorems over a reference/heap model of the constructors and of copy()/copy.copy/copy.deepcopy (one function): a copy shares no mutable object with its original and leaves the old heap untouched (copy_fresh), is bisimilar to it and of the same class (copy_observationally_equal, copy_same_class); for roots with disjoint mutable reach every history of in-place mutations through one leaves every observation, the reach and the sharing graph of the other unchanged (disjoint_frame, by induction over the history; copy_independent in both directions). The full sibling / instance-vs-class statements are FALSE of the code (instance attributes endogenous/check are the class-level lists): negation proved for every model/linker class and at a concrete witness, plus the statements under the exact guard, the exact extent of the sharing, and the full statements for the candidate patch. The model is tied to the code by comparing the sharing graph of real objects after random histories and all three copy routes.",
+    "text": "Theorems over a reference/heap model of the constructors and of copy()/copy.copy/copy.deepcopy (one function): a copy shares no mutable object with its original and leaves the old heap untouched (copy_fresh), is bisimilar to it and of the same class (copy_observationally_equal, copy_same_class); for roots with disjoint mutable reach every history of in-place mutations through one leaves every observation, the reach and the sharing graph of the other unchanged (disjoint_frame, by induction over the history; copy_independent in both directions). Two sibling instances, and an instance and its class, share no mutable object (siblings_disjoint, instance_class_disjoint: the constructors store copies of the class-level lists), so any history through one is invisible through the other; trace_t is a local step for every source of the trace names (trace_t_local, ops_local). The model is tied to the code by comparing the sharing graph of real objects after random histories and all three copy routes.",
     "design_ref": "DESIGN.md §5 M7, §6 C11, §7 row 7",
-    "note": "Trusted: Lean kernel; standard axioms; the harness' extraction of the sharing graph from real objects (id(), ndarray.base); the model of copy.deepcopy's memo. Theorem hypotheses (no dangling references, class-level lists hold only immutable entries, __dict__ keys unique and containing the constructor's keys) are evaluated by the driver on every correspondence program. Known findings: instance endogenous/check are the class-level lists; Trace.names is the class-level TRACE_VARIABLES list.",
+    "note": "Trusted: Lean kernel; standard axioms; the harness' extraction of the sharing graph from real objects (id(), ndarray.base); the model of copy.deepcopy's memo. Theorem hypotheses (no dangling references, class-level lists hold only immutable entries, __dict__ keys unique and containing the constructor's keys) are evaluated by the driver on every correspondence program. Fixed findings (b2c7af0, cba9d09): instance endogenous/check were the class-level lists; Trace.names was the class-level TRACE_VARIABLES list — the oracle keys remain, a regression is a violation.",
     "technique": "Lean 4 proof (heap invariants, induction on deepcopy fuel and on histories, bisimulation) + differential correspondence check on sharing graphs + twin-run oracle"
 }
 
@@ -586,66 +584,28 @@ def cross_root(snaps):
     return '#'.join(out)
 
 
-def patched_variant(full, fix_lists, fix_trace, classes):
-    """The same program for the model of the *candidate patches* (property-conforming behaviour, proved in
-    Proofs/C11.lean: siblings_disjoint_patched): instance lists are copies of the class lists / Trace.names is a copy."""
-    prog = [{'c': 'fix', 'on': True}] + list(full) if fix_lists else list(full)
-    if fix_trace:
-        def conv(op):
-            if op['o'] == 'traceT' and op['src'] in ('class', 'own'):
-                op = dict(op, src='user', items=list(classes[op['cls']].get('trace_vars') or ['?'] * op['n']))
-            if op['o'] == 'inSub':
-                op = dict(op, op=conv(op['op']))
-            return op
-        prog = [dict(c, op=conv(c['op'])) if c['c'] == 'op' else c for c in prog]
-    return prog
-
-
 def model_snaps(out):
-    snaps, hyps, local = out.split('%')
-    return '#'.join(hc.canon_model_snapshot(s) for s in snaps.split('#')), hyps, local
+    snaps, hyps = out.split('%')
+    return '#'.join(hc.canon_model_snapshot(s) for s in snaps.split('#')), hyps
 
 
 def compare_T(ctx, rep, batch):
     """batch: list of (case, full program, real snapshots)."""
     outs = ctx.drive([hc.line(full) for _, full, _ in batch])
-    retry = []
     for (case, full, real), out in zip(batch, outs):
         if out.startswith('!'):
             rep.disagree('heap_prog: driver rejected the program', case, out, real[:300])
             continue
-        model, hyps, local = model_snaps(out)
+        model, hyps = model_snaps(out)
         for f in hyps:
             rep.dist['theorem-hypotheses-at-copy:' + f] += 1
-        for f in local:
-            rep.dist['op-steps-local:' + f] += 1
         if cross_root(model) != cross_root(real):
-            retry.append((case, full, real, model))
+            detail_m, detail_r = first_difference(cross_root(model), cross_root(real), cross=True)
+            rep.disagree('sharing between roots: model != impl', case, detail_m, detail_r)
         elif model != real:
             rep.dist['model_drift (aliasing inside one object / list contents; not a disagreement)'] += 1
             if len(rep.notes) < 5:
                 rep.notes.append('model drift: ' + ' / '.join(first_difference(model, real))[:400])
-    if not retry:
-        return
-    variants = [(True, False), (False, True), (True, True)]
-    lines = [hc.line(patched_variant(full, fl, ft, case['classes'])) for case, full, _, _ in retry for fl, ft in variants]
-    outs = ctx.drive(lines)
-    for i, (case, full, real, model) in enumerate(retry):
-        ok = None
-        for j, v in enumerate(variants):
-            o = outs[i * 3 + j]
-            if not o.startswith('!') and cross_root(model_snaps(o)[0]) == cross_root(real):
-                ok = v
-                break
-        if ok:
-            rep.dist[f'matches the PATCHED model (class lists copied={ok[0]}, trace names copied={ok[1]})'] += 1
-            if len(rep.notes) < 5:
-                rep.notes.append('the code no longer shares class-level lists with instances: it agrees with the model '
-                                 'of the candidate patch (Proofs.C11.siblings_disjoint_patched); known_findings.json '
-                                 'and FsicModel/Heap.lean (fix := true) should be updated')
-        else:
-            detail_m, detail_r = first_difference(cross_root(model), cross_root(real), cross=True)
-            rep.disagree('sharing between roots: model != impl', case, detail_m, detail_r)
 
 
 def first_difference(model, real, cross=False):
